@@ -1,5 +1,12 @@
 #!/bin/bash
-# usage: neutral_loop.sh Cnn [Cmm ...] — development aid: runs the named checks on every selftest/neutral/*.diff (scratch copies of
-# /repo, never /repo itself) and prints the patches on which something alarms.
+# usage: [JOBS=2] neutral_loop.sh Cnn [Cmm ...] — development aid: runs the named checks on every selftest/neutral/*.diff (scratch
+# copies of /repo, never /repo itself), JOBS patches at a time (each with PAR=1), and prints the patches on which something alarms,
+# does not build or ends without a verdict. A patch that no longer applies is skipped.
 cd "$(dirname "$0")/.."
-for p in selftest/neutral/*.diff; do out=$(PAR=${PAR:-3} tools/all_checks_on_patch.sh $p "$@" 2>&1 | tail -1); case "$out" in "ALARMS: none"|"patch does not apply") ;; *) echo "$p $out";; esac; done; echo "neutral loop done: $*"
+one() { out=$(PAR=1 tools/all_checks_on_patch.sh "$1" "${@:2}" 2>&1 | tail -1); case "$out" in "ALARMS: none"|"patch does not apply") ;; *) echo "$1 $out";; esac; }
+for p in selftest/neutral/*.diff; do
+  one "$p" "$@" &
+  while [ $(jobs -r | wc -l) -ge ${JOBS:-2} ]; do sleep 0.5; done
+done
+wait
+echo "neutral loop done: $*"
